@@ -259,7 +259,12 @@ func VerifC05_Merge_TwoKeys() {
 }
 
 func VerifC05_Merge_Lists() {
-	verifC05(gen.Shape{Depth: 1, Keys: []string{"a"}, Nulls: true, Lists: 1, ListMaps: 2, MergeKeys: []string{"name", "port"}})
+	verifC05(gen.Shape{Depth: 1, Keys: []string{"a"}, Nulls: true, Lists: 1, ListMaps: 2, MergeKeys: []string{"name"}})
+}
+
+// list-maps keyed by an integer merge key (rendered with %v by the code under test)
+func VerifC05_Merge_ListsPort() {
+	verifC05(gen.Shape{Depth: 1, Keys: []string{"a"}, ListMaps: 2, MergeKeys: []string{"port"}})
 }
 
 func VerifC05_Merge_Deep() {
